@@ -37,3 +37,11 @@ Theorem C10_bool_stub_arm64 : forall v m jit regs, 0 <= jit -> jit + 8 <= W -> r
              (forall r, r <> 0 -> ax st r = regs r) /\ am st = m.
 Proof. exact tramp_bool_ok. Qed.
 Print Assumptions C10_bool_stub_arm64.
+
+(* the constants of the model's encoder are those of the current Rust source (gen/SrcConsts.v is regenerated from it on every run) *)
+From Inj Require Import SrcTie.
+From Inj.gen Require Import SrcConsts.
+Import Inj.Base Inj.EncAmd64.
+Theorem C10_source_bool_stub : forall v, bool_stub v = set_nth (Z.to_nat AMD64_BOOL_VALUE_INDEX) (Z.b2z v) AMD64_BOOL_STUB.
+Proof. exact src_amd64_bool_stub. Qed.
+Print Assumptions C10_source_bool_stub.
